@@ -228,6 +228,12 @@ func runC17inbound(t *testing.T, depth int, named bool, prefix []int) explore.Ex
 		ids := []uint16{5, 6}
 		pubSent := map[uint16]bool{}
 		rels := map[uint16]int{}
+		// a message id can be used again for a NEW message (non-DUP PUBLISH with another payload) while the earlier
+		// exchange under that id was abandoned or after it has finished: the new exchange delivers its own message
+		cur := map[uint16]string{}       // payload of the current exchange under the id
+		open := map[uint16]bool{}        // PUBLISH seen, not yet released
+		newSent := map[uint16]bool{}     // the id was reused once
+		wantDeliv := map[uint16][]string{}
 		var vs []explore.Violation
 		var hist []string
 		add := func(sig, f string, a ...any) {
@@ -241,10 +247,16 @@ func runC17inbound(t *testing.T, depth int, named bool, prefix []int) explore.Ex
 			var menu []item
 			for _, id := range ids {
 				pl := []byte(fmt.Sprintf("in%d", id))
+				if cur[id] != "" {
+					pl = []byte(cur[id])
+				}
+				if pubSent[id] && !newSent[id] && !named {
+					menu = append(menu, item{fmt.Sprintf("PUBLISH-new-message(%d)", id), refsn.Pkt{Type: refsn.PUBLISH, TIT: tit, TopicID: tid, MsgID: id, QoS: 2, Data: []byte(fmt.Sprintf("new%d", id))}})
+				}
 				if !pubSent[id] {
 					menu = append(menu, item{fmt.Sprintf("PUBLISH(%d)", id), refsn.Pkt{Type: refsn.PUBLISH, TIT: tit, TopicID: tid, MsgID: id, QoS: 2, Data: pl}})
 				} else {
-					if rels[id] == 0 {
+					if open[id] {
 						menu = append(menu, item{fmt.Sprintf("PUBLISH-dup(%d)", id), refsn.Pkt{Type: refsn.PUBLISH, TIT: tit, TopicID: tid, MsgID: id, QoS: 2, DUP: true, Data: pl}})
 					}
 					menu = append(menu, item{fmt.Sprintf("PUBREL(%d)", id), refsn.Pkt{Type: refsn.PUBREL, MsgID: id}})
@@ -269,6 +281,18 @@ func runC17inbound(t *testing.T, depth int, named bool, prefix []int) explore.Ex
 			if it.p.Type == refsn.PUBREL && !unsubscribed && rels[it.p.MsgID] == 0 {
 				releasedBeforeUnsub[it.p.MsgID] = true
 			}
+			switch {
+			case it.p.Type == refsn.PUBLISH && !it.p.DUP:
+				if pubSent[it.p.MsgID] {
+					newSent[it.p.MsgID] = true
+				}
+				cur[it.p.MsgID], open[it.p.MsgID] = string(it.p.Data), true
+			case it.p.Type == refsn.PUBREL && open[it.p.MsgID]:
+				open[it.p.MsgID] = false
+				if !named || !unsubscribed {
+					wantDeliv[it.p.MsgID] = append(wantDeliv[it.p.MsgID], cur[it.p.MsgID])
+				}
+			}
 			c.FromGateway(it.p.Encode())
 			var got []string
 			for _, o := range c.Take() {
@@ -292,23 +316,18 @@ func runC17inbound(t *testing.T, depth int, named bool, prefix []int) explore.Ex
 			}
 		}
 		for _, id := range ids {
-			n := 0
+			var got []string
 			for _, d := range c.Deliv {
-				if d.Payload == fmt.Sprintf("in%d", id) {
-					n++
+				if strings.HasSuffix(d.Payload, fmt.Sprint(id)) {
+					got = append(got, d.Payload)
 				}
 			}
-			wantN := 0
-			if rels[id] > 0 {
-				wantN = 1
-			}
-			if named && rels[id] > 0 && !releasedBeforeUnsub[id] {
-				wantN = 0 // released after the Unsubscribe: the callback is no longer invoked (C27)
-			}
-			if n != wantN && len(vs) == 0 {
-				add(fmt.Sprintf("handler-runs=%d:want=%d", n, wantN), "QoS 2 message %d delivered to the handler %d times (PUBRELs sent: %d)", id, n, rels[id])
+			// (a message released after the Unsubscribe is not delivered: the callback is no longer invoked, C27)
+			if fmt.Sprint(got) != fmt.Sprint(wantDeliv[id]) && len(vs) == 0 {
+				add(fmt.Sprintf("handler-runs=%d:want=%d", len(got), len(wantDeliv[id])), "message id %d: the handler got %v, want %v (one delivery per released exchange, of that exchange's own message; PUBRELs sent: %d)", id, got, wantDeliv[id], rels[id])
 			}
 		}
+		_ = releasedBeforeUnsub
 		out := fmt.Sprintf("%v deliv=%d", hist, len(c.Deliv))
 		s.NoChoice = true
 		c.Finish()
@@ -350,7 +369,7 @@ func TestC17(t *testing.T) {
 	}
 	rep.Coverage["evaluations"] = evals
 	rep.Coverage["distinct_nontrivial"] = rep.Coverage["states"]
-	rep.Coverage["rule"] = "for each API flow (Publish q1/q2 on registered, short and predefined topics, q0, q-1, Subscribe, Register, Unsubscribe; RetryCount 2, RetryDelay 1 s) against a scripted gateway: every transmission of the client is answered correctly (default), not answered (request or reply lost) or answered twice; all fault patterns with at most 3 deviations (thorough: up to 6, then all); plus two concurrent inbound QoS 2 exchanges whose PUBLISH (first and DUP copies) and PUBREL datagrams (retransmitted, also after completion, also after the other exchange finished) arrive in every order up to 6 (thorough 8) datagrams: each is answered by exactly one PUBREC/PUBCOMP with its id and each message reaches the handler once; the same on a subscription by name with an acknowledged Unsubscribe call at any point of the order (PUBRELs are still answered; the handler runs only for messages released before it); distinct_nontrivial = distinct (transmission log, return value) outcomes"
+	rep.Coverage["rule"] = "for each API flow (Publish q1/q2 on registered, short and predefined topics, q0, q-1, Subscribe, Register, Unsubscribe; RetryCount 2, RetryDelay 1 s) against a scripted gateway: every transmission of the client is answered correctly (default), not answered (request or reply lost) or answered twice; all fault patterns with at most 3 deviations (thorough: up to 6, then all); plus two concurrent inbound QoS 2 exchanges whose PUBLISH (first and DUP copies) and PUBREL datagrams (retransmitted, also after completion, also after the other exchange finished) arrive in every order up to 6 (thorough 8) datagrams: each is answered by exactly one PUBREC/PUBCOMP with its id and each message reaches the handler once, also when a message id is used again for a new message (other payload) while the earlier exchange was abandoned or after it finished; the same on a subscription by name with an acknowledged Unsubscribe call at any point of the order (PUBRELs are still answered; the handler runs only for messages released before it); distinct_nontrivial = distinct (transmission log, return value) outcomes"
 	rep.Assumptions = []string{"default schedule (fault choices only)", "a lost request and a lost reply are the same event for the client"}
 	rep.Finish()
 }
